@@ -154,6 +154,11 @@ func (ssc *defaultStatefulSetControl) ListRevisions(set *apps.StatefulSet) ([]*k
 	res := []*kubeapps.ControllerRevision{}
 	for _, item := range append(revisions.Items, revisinsToUpgrade.Items...) {
 		local := item
+		// Only orphans and revisions controlled by this set belong to its
+		// history; revisions of other owners may match the selector too.
+		if ref := metav1.GetControllerOfNoCopy(&local); ref != nil && ref.UID != set.GetUID() {
+			continue
+		}
 		res = append(res, &local)
 	}
 	return res, nil
